@@ -80,7 +80,7 @@ Next == /\ l <= NRec
         /\ l' = l + 1
         /\ LET w == Why(Rec[l])
            IN  IF w = "" THEN TRUE
-               ELSE PrintT(<<"REJECT", l, IF w # "binding" /\ Rlat87(Rec[l].kind, Rec[l].i, Rec[l].L)
+               ELSE PrintT(<<"REJECT", l, IF w \in {"none_in_range", "wrong_in_range"} /\ Rlat87(Rec[l].kind, Rec[l].i, Rec[l].L)
                                           THEN "nl_87_exact" ELSE w, w>>)
 Spec == Init /\ [][Next]_l
 =============================================================================
